@@ -237,6 +237,66 @@ fn curves_digest(m: &Beatmap) -> String {
     out
 }
 
+fn curve_bits(c: &rosu_map::section::hit_objects::Curve) -> String {
+    let mut out = format!("{}:{:x}:", c.path().len(), c.dist().to_bits());
+    for p in c.path() {
+        out.push_str(&format!("{:x},{:x};", p.x.to_bits(), p.y.to_bits()));
+    }
+    for l in c.lengths() {
+        out.push_str(&format!("{:x},", l.to_bits()));
+    }
+    out
+}
+
+/// C18 on DECODED maps: the curve a decoded slider hands out (cached inside its path by the decoder's finaliser or computed on
+/// first access) is the curve `Curve::new` computes for the map's mode, the slider's control points and its requested length -
+/// for the Beatmap and the HitObjects decoder; and it stays the curve the path would compute afresh after the map's mode was
+/// changed and the map encoded (encoding must not touch what a cached curve depends on without dropping the cache).
+/// Only meaningful for files whose `Mode` record precedes the hit objects (finding F15 otherwise): the generator sees to that.
+pub fn prop_deccurves(bytes: &[u8]) -> String {
+    use rosu_map::section::general::GameMode;
+    use rosu_map::section::hit_objects::{Curve, CurveBuffers, HitObjectKind, HitObjects};
+    let Ok(mut m) = rosu_map::from_bytes::<Beatmap>(bytes) else { return "FAIL decode error".to_owned() };
+    let Ok(mut ho) = rosu_map::from_bytes::<HitObjects>(bytes) else { return "FAIL decode error".to_owned() };
+    let mode = m.mode;
+    let mut n = 0;
+    for (which, objs) in [("Beatmap", &mut m.hit_objects), ("HitObjects", &mut ho.hit_objects)] {
+        for (i, h) in objs.iter_mut().enumerate() {
+            if let HitObjectKind::Slider(ref mut s) = h.kind {
+                let cps = s.path.control_points().to_vec();
+                let exp = s.path.expected_dist();
+                let fresh = curve_bits(&Curve::new(mode, &cps, exp, &mut CurveBuffers::default()));
+                let cached = curve_bits(s.path.curve());
+                if cached != fresh {
+                    return format!("FAIL {which}: slider {i} hands out a curve that Curve::new does not compute for its mode, control points and length {exp:?}");
+                }
+                n += 1;
+            }
+        }
+    }
+    for new_mode in [GameMode::Osu, GameMode::Taiko, GameMode::Catch, GameMode::Mania] {
+        if new_mode == mode {
+            continue;
+        }
+        let mut m2 = m.clone();
+        m2.mode = new_mode;
+        if m2.encode_to_string().is_err() {
+            continue;
+        }
+        for (i, h) in m2.hit_objects.iter_mut().enumerate() {
+            if let HitObjectKind::Slider(ref mut s) = h.kind {
+                let cached = curve_bits(s.path.curve());
+                let mut p2 = s.path.clone();
+                p2.clear_curve();
+                if curve_bits(p2.curve()) != cached {
+                    return format!("FAIL after mode := {new_mode:?} and encode: slider {i} keeps a cached curve that its path no longer computes");
+                }
+            }
+        }
+    }
+    format!("OK sliders={n}")
+}
+
 pub fn enc(bytes: &[u8]) -> String {
     match rosu_map::from_bytes::<Beatmap>(bytes) {
         Ok(mut m) => match m.encode_to_string() {
@@ -298,6 +358,7 @@ pub fn dispatch_prop(toks: &[&str]) -> Option<String> {
     match toks {
         ["total", hex] => Some(prop_total(&unhex(hex))),
         ["dec9", hex] => Some(prop_dec9(&unhex(hex))),
+        ["deccurves", hex] => Some(prop_deccurves(&unhex(hex))),
         ["c06", hexes @ ..] => Some(prop_c06_raw(&hexes.iter().map(|h| unhex(h)).collect::<Vec<_>>())),
         _ => None,
     }
